@@ -1,6 +1,8 @@
 //! C04 harness: literal-versus-variable transparency of compile-time evaluation.
 //!
 //! JSON lines.  Request: {"undefined": "lenient|strict|semistrict|chainable", "items": [item..]}
+//!   item = {"templates": {name: source}, "main": name, "ctxs": [{name: TV}..]}  (one environment, main rendered once per context, in order
+//!           -> {"load": {name: "ok"|{"err":k}}, "renders": [{"ok": text}|{"err": k}..]})   or
 //!   item = {"expr": "<expression source>", "ctx": {name: TV}, "prelude": "<template text put before the rendered form>"}   or   {"src": "<template source>", "ctx": {name: TV}}
 //!   TV (typed value, built exactly the way the parser builds the constant of the same literal):
 //!     {"t":"int","v":"<decimal>"} | {"t":"float","bits":"<u64>"} | {"t":"str","v":s} | {"t":"bool","v":b} | {"t":"none"}
@@ -230,8 +232,61 @@ fn run_item(ub: UndefinedBehavior, item: &J) -> J {
         pos.extend(rest.0.iter().cloned());
         probe(pos, &kwargs)
     });
+    // probes that consume keyword arguments conditionally and then insist that all were used
+    env.add_function(
+        "cshow",
+        |amount: Option<i64>, kwargs: minijinja::value::Kwargs| -> Result<String, Error> {
+            let rv = match amount {
+                Some(amount) => {
+                    let unit: Option<String> = kwargs.get("unit")?;
+                    format!("{}{}", amount, unit.unwrap_or_default())
+                }
+                None => "-".to_string(),
+            };
+            kwargs.assert_all_used()?;
+            Ok(rv)
+        },
+    );
+    env.add_filter(
+        "ckw",
+        |value: Value, sel: Value, kwargs: minijinja::value::Kwargs| -> Result<String, Error> {
+            let a: Option<Value> = kwargs.get("a")?;
+            let b: Option<Value> = if sel.is_true() { kwargs.get("b")? } else { None };
+            kwargs.assert_all_used()?;
+            Ok(format!("{}:{:?}:{:?}", value, a, b))
+        },
+    );
     let ctx = ctx_of(item);
     let mut out = serde_json::Map::new();
+    if let Some(tmpls) = item.get("templates").and_then(|x| x.as_object()) {
+        // several templates on ONE environment; the main one is rendered once per context of "ctxs", in order
+        let mut load = serde_json::Map::new();
+        for (name, src) in tmpls {
+            let r = match env.add_template_owned(name.clone(), src.as_str().unwrap_or("").to_string()) {
+                Ok(()) => json!("ok"),
+                Err(e) => errj(&e),
+            };
+            load.insert(name.clone(), r);
+        }
+        out.insert("load".into(), J::Object(load));
+        let main = item.get("main").and_then(|x| x.as_str()).unwrap_or("main");
+        let mut renders = vec![];
+        let ctxs: Vec<J> = item.get("ctxs").and_then(|x| x.as_array()).cloned().unwrap_or_else(|| vec![json!({})]);
+        match env.get_template(main) {
+            Err(e) => renders.push(errj(&e)),
+            Ok(t) => {
+                for c in &ctxs {
+                    let cv = ctx_of(&json!({"ctx": c}));
+                    renders.push(match t.render(cv) {
+                        Ok(s) => json!({"ok": s}),
+                        Err(e) => errj(&e),
+                    });
+                }
+            }
+        }
+        out.insert("renders".into(), json!(renders));
+        return J::Object(out);
+    }
     if let Some(e) = item.get("expr").and_then(|x| x.as_str()) {
         let src = format!("{{{{ {} }}}}", e);
         let prelude = item.get("prelude").and_then(|x| x.as_str()).unwrap_or("");
